@@ -168,6 +168,14 @@ def run(ctx):
                p.events[-1], "" if okc else "a close that passes validation is answered "
                "without closing the mailbox in the database: this side's row stays open and "
                "the mailbox is never deleted", None if okc else render_path(p.events))
+        if ok and closes:
+            evs_all = [e for e, _ in all_events(p)]
+            rets = [i for i, e in enumerate(evs_all)
+                    if e["k"] == "ret" and e["callee"] == "Mailbox.close"]
+            snd = [i for i, e in enumerate(evs_all)
+                   if e["k"] == "send" and frame_type(e) == "closed"]
+            if not rets or not snd or snd[0] < rets[-1]:
+                ok = False
         ctx.ob("R08.answer", "%s: answers closed" % h, ok, p.events[-1],
                "" if ok else "a close that passes validation ends with frames %s (%s %s)"
                % (sent, p.outcome.kind, p.outcome.cls or ""),
